@@ -111,6 +111,7 @@ func VerifyUnit(prog *Program, cs *ContractSet, uc *UnitContract) *UnitResult {
 	endPos := fu.Body.End() - 1
 	if uc.Region == "" {
 		stmts = fu.Body.List
+		x.execLo, x.execHi = fu.Body.Pos(), fu.Body.End()
 		res.SrcRange = prog.srcRange(fu.Body)
 		res.Stmts = stmtCount(fu.Body)
 	} else {
@@ -120,6 +121,7 @@ func VerifyUnit(prog *Program, cs *ContractSet, uc *UnitContract) *UnitResult {
 			res.Errors = append(res.Errors, fmt.Sprintf("contract cannot bind region %s: %v", uc.ID(), err))
 			return res
 		}
+		x.execLo, x.execHi = stmts[0].Pos(), stmts[len(stmts)-1].End()
 		a := prog.Fset.Position(stmts[0].Pos())
 		b := prog.Fset.Position(stmts[len(stmts)-1].End())
 		res.SrcRange = fmt.Sprintf("%s-%d", prog.pos(stmts[0].Pos()), b.Line)
